@@ -62,8 +62,9 @@ def make_case(gen, r, d):
         mode = "out_sentinel"
     cfg = [c for c in covering_configs(r, 6) if c["merge"] != "mergetool"]
     cfg = r.choice(cfg)
+    generic = r.choice([[], [], [], ["--log-level", "DEBUG"], ["--log-level", "ERROR"], ["--log-level", "WARN"], ["--log-level", "CRITICAL"]])
     return {"class": cls, "base": b, "local": l, "remote": rm, "placeholder": placeholder, "mode": mode, "config": cfg,
-            "flags": config_flags(cfg)}
+            "flags": config_flags(cfg), "generic_flags": generic}
 
 
 def prepare(case, d, r):
@@ -96,13 +97,13 @@ def prepare(case, d, r):
             if ph == "both_null":
                 ar = fr
         entry = "git-nbmergedriver"
-        argv = ["merge"] + case["flags"] + [ab, al, ar, "7", "path/in/repo.ipynb"]
+        argv = case.get("generic_flags", []) + ["merge"] + case["flags"] + [ab, al, ar, "7", "path/in/repo.ipynb"]
         output = al
         with open(al, "rb") as f:
             pre = f.read()
     else:
         entry = "nbmerge"
-        argv = list(case["flags"])
+        argv = case.get("generic_flags", []) + list(case["flags"])
         output = fo
         pre = None
         if mode == "out_sentinel":
@@ -165,7 +166,7 @@ def fault_free(col, case, d, r):
         spec["output"] = output
     rc, out, err = run(entry, argv, spec, d)
     col.eval()
-    cc = {k: case[k] for k in ("class", "base", "local", "remote", "placeholder", "mode", "config")}
+    cc = {k: case.get(k) for k in ("class", "base", "local", "remote", "placeholder", "mode", "config", "generic_flags")}
     if rc is None:
         col.inconc("fault-free run watchdog")
         return None
@@ -241,7 +242,7 @@ def inject_all(col, case, d, r, ff):
     last_comp = max([i + 1 for i, b in enumerate(bnds) if b.startswith(comp)] or [0])
     first_open = min([i + 1 for i, b in enumerate(bnds) if b.startswith(("open-output", "remove-output"))] or [0])
     open_idx = max(last_comp, first_open) or None
-    cc = {k: case[k] for k in ("class", "base", "local", "remote", "placeholder", "mode", "config")}
+    cc = {k: case.get(k) for k in ("class", "base", "local", "remote", "placeholder", "mode", "config", "generic_flags")}
     ff_out = ff["out"] if case["mode"] != "stdout" else ff["stdout"]
     # every non-write boundary; of the write boundaries (json.dump issues one per token) the first 3,
     # the last 2 and 3 evenly spaced ones
